@@ -30,6 +30,10 @@ def run(ctx):
                         "debug build with overflow checks (panics on arithmetic overflow are data); not coverage-guided -- cargo-fuzz is available in the sandbox but is a different technique from the one this task studies"]
     r = tlc_expect_ok(tlc("ResourceBounds", "MC_ResourceBounds.cfg", name="mc_resbounds", workers=4, timeout=600), "MC ResourceBounds")
     ctx.add_tlc(r)
+    if not ctx.quick:
+        # unbounded: TLAPS proves the four bounds for every input length and every limit (reserve cap in place)
+        nob = tlapm_prove("ResourceBounds_proofs", ["ResourceBounds"], threads=12)
+        ctx.assumptions.append("thorough tier: tlapm discharged %d proof obligations of ResourceBounds_proofs (DepthBounded, CountBounded, WorkBounded, AllocBounded for all natural InputLen and limits, Capped = TRUE)" % nob)
     for cfg, inv in (("MC_ResourceBounds_uncapped.cfg", "AllocBounded"), ("MC_ResourceBounds_W.cfg", "W_Refused")):
         w = tlc("ResourceBounds", cfg, name="mc_resbounds_" + inv, workers=2, timeout=300, coverage=False)
         if not (w.violated and inv in w.out):
